@@ -3,11 +3,16 @@ from __future__ import annotations
 
 import copy
 import math
+import random
 from fractions import Fraction
 from unittest import mock
 
 import numpy as np
 import rpylib.grid.spatial as spatial
+from rpylib.distribution.sampling import SamplingMethod
+from rpylib.model.levydrivensde.levydrivensde import LevyDrivenSDEModel
+from rpylib.model.utils import create_levy_forward_market_model
+from rpylib.process.markovchain.markovchain import MarkovChainProcess
 
 from .. import zoo
 from ..common import w, wl, wll, rd, rdl, rdll, close, fr
@@ -21,20 +26,38 @@ RULE = ("structured: 4 model families x parameter draws (all CGMY branches) x 6 
         "object histories: two objects from equal arguments, refine / deepcopy / refine the copy / refine the original again. "
         "edge arguments in every run: fixed nb_of_points 0..4 x dim 1..3, bounds inside or on [-h, h], h = 1, 2, 5 for every family, "
         "dimension 3 with three different thresholds, per-axis sizes containing 1. "
-        "non-trivial = grid built successfully with >= 5 points per axis; distinct = distinct (constructor, args, model, k)")
+        "constructor histories (c13.history): several grids (uniform / geometric / credit / probability-step) built one after the other in one "
+        "process on ONE live model object - the Levy model itself, its exponential model, a Levy-driven SDE / forward market model on it as "
+        "driver, a copula model on 2..3 margins - between the constructions the object's Parameters are edited in place (all / one / two "
+        "attributes assigned, then initialisation(); CGMY across activity branches), the model is truncated in place or replaced by the "
+        "truncated copy a MarkovChainProcess keeps, the same arguments go to another model object, or h / probability / constructor change; "
+        "every grid is judged by the well-formedness, tail-probability and per-step-probability oracles against the object's CURRENT measure, "
+        "compared with the grid built from a freshly constructed model at the current values, and refined once; in every run every family x "
+        "{uniform, geometric, credit} as build / edit / build / partial edit / build, plus random histories. "
+        "non-trivial = grid built successfully with >= 5 points per axis (history: and not the first step); distinct = distinct (constructor, args, model, k)")
 NOT_PROVED = ["root-searched truncation bounds and probability-step axes (brentq) are compared/oracle-checked only",
               "np.linspace is proved in exact arithmetic (linspace_closed_form, uniformCtor_*): the float rounding of start + k*step and of "
               "int(|l|/h) is compared (exactly where every float operation is exact, 2^-40 otherwise), not proved",
               "np.geomspace (log10 / 10**) is not modelled: the geometric axes are compared with h (r/h)^(k/(n-1)) at 1e-12 in Python only",
               "the probability-step constructor is not run with h beyond the support of the jump mass (Merton defaults, h = 1: the "
-              "normalising mass is 0.0, p_left is NaN and compute_right_axis does not terminate)"]
+              "normalising mass is 0.0, p_left is NaN and compute_right_axis does not terminate); in the histories a probability-step grid is "
+              "only built while both one-sided masses outside (-h/2, h/2) of the current (possibly truncated) measure are positive",
+              "independence of a grid from the construction history of its model object is oracle-checked / compared with a freshly constructed "
+              "model (c13.history.fresh, 1e-8 relative on the states: far above the root-search tolerance), not proved; the per-step promise of "
+              "the probability-step axes is oracle-checked only (c13.step_probability: the first k gaps from +-h outwards carry "
+              "minimum_probability_step of the mass outside (-h/2, h/2) to 1e-7 and less than one step's share lies beyond the k-th state)"]
 ASSUMPTIONS = ["float midpoints 0.5*(a+b) are compared with the exact rational midpoint to 2^-40 relative",
                "int(abs(l)/h), int(r/h) are modelled as truncations of the exact quotients of the doubles l, r, h; inputs whose rounded "
                "float quotient lands on the other side of an integer are don't-care points of the correspondence (counted, not compared)",
-               "l < 0 in uniformCtor_wellFormed_partial / _iff: what the root search over [-100, -h/2] returns for h > 0"]
+               "l < 0 in uniformCtor_wellFormed_partial / _iff: what the root search over [-100, -h/2] returns for h > 0",
+               "histories: the Levy measure objects of all four families read the Parameters object live (mass, density, moments of an edited + "
+               "initialisation()-ed object equal those of a freshly constructed one exactly - measured on the unchanged tree, also across CGMY "
+               "activity branches and under TruncatedLevyMeasure); the triplet's sigma / drift of HEM and Merton are captured at construction and "
+               "are NOT refreshed by an in-place edit, which no grid constructor reads"]
 TRUSTED = ["scipy.optimize.root_scalar, numpy.geomspace/insert/concatenate; numpy.linspace is compared with M on every run (c13.linspace.model)",
            "unittest.mock.patch.object on rpylib.grid.spatial.compute_truncation (explicit-bounds probes only): the rest of "
-           "CTMCUniformGrid.__init__ runs unchanged"]
+           "CTMCUniformGrid.__init__ runs unchanged",
+           "the models' own LevyMeasure.integrate is the measure the tail / per-step oracles integrate (closed-form integrals vs the density: C09)"]
 
 
 def snapshot(g):
@@ -71,6 +94,8 @@ def refine_probe(ctx, desc, g, kmax, cls, check_wf=True):
     for k in range(1, kmax + 1):
         # expected inserted points from the grid's own cell-boundary function, *before* refine() mutates h
         mids = [[g.middle(float(a), float(b)) for a, b in zip(ax, ax[1:])] for ax in before["axes"]]
+        if not arithmetic:      # classification of the grid about to be refined (a gap without mass may appear only after a refinement)
+            cls = dict(cls, zero_mass_gap=zero_mass_gap(g, g.levy_measure))
         g.refine()
         after = snapshot(g)
         d = dict(desc, k=k)
@@ -550,6 +575,322 @@ def credit_nd_case(ctx, d, margins, copula, kref):
         refine_probe(ctx, d, g, kref, cls)
 
 
+# ------------------------------------------------------------------------------------------ constructor histories
+HIST_WRAPS = ["levy", "exp", "sde", "fwd", "copula"]
+_PNAMES = {f: sorted(zoo.draw_params(random.Random(0), f)) for f in zoo.FAMILIES}
+
+
+class _Subject:
+    """one live model object taken through a history, and the recipe to construct it afresh at its current values:
+    wrap = levy (the Lévy model itself) | exp (exponential-of-Lévy model) | sde / fwd (Lévy-driven SDE / forward market model
+    on the Lévy model as driver) | copula (Lévy copula model on several margins)"""
+
+    def __init__(self, wrap, fams, params, copula=None):
+        self.wrap, self.fams, self.copula = wrap, list(fams), copula
+        self.truncs = [[] for _ in self.fams]           # truncations applied so far, per margin, in order
+        self.model = self._assemble([self._margin(f, p) for f, p in zip(self.fams, params)])
+
+    def _margin(self, fam, p):
+        return zoo.make_exp(fam, p) if self.wrap == "exp" else zoo.make_levy(fam, p)
+
+    def _assemble(self, margins):
+        if self.wrap == "copula":
+            return zoo.make_copula_model(margins, zoo.make_copula(self.copula))
+        if self.wrap == "sde":
+            return LevyDrivenSDEModel(driver=margins[0], x0=0.0)
+        if self.wrap == "fwd":
+            return create_levy_forward_market_model(margins[0])
+        return margins[0]
+
+    def margins(self):
+        m = self.model
+        return list(m.models) if self.wrap == "copula" else [m.driver] if self.wrap in ("sde", "fwd") else [m]
+
+    def pobj(self, i):
+        m = self.margins()[i]
+        return m.levy_model.parameters if self.wrap == "exp" else m.parameters
+
+    def current(self, i):
+        return {n: getattr(self.pobj(i), n) for n in _PNAMES[self.fams[i]]}
+
+    def edit(self, i, new):
+        """what rpylib.model.utils does after a calibration: attribute assignment on the live parameter object, then
+        `initialisation()` (re-derives the dependent members)"""
+        p = self.pobj(i)
+        for k, v in new.items():
+            setattr(p, k, v)
+        p.initialisation()
+
+    def truncate(self, bounds):
+        """in place, the call a chain construction applies to its copy of the model"""
+        for i, b in enumerate(bounds):
+            self.truncs[i].append((float(b[0]), float(b[1])))
+        self.model.truncate_levy_measure(bounds if self.wrap == "copula" else bounds[0])
+
+    def through_chain(self, grid):
+        """continue with the (deep-copied, truncated, re-represented) model a Markov chain construction keeps"""
+        self.truncs[0].append(tuple(float(x) for x in grid.truncations[0]))
+        self.model = MarkovChainProcess(self.model, SamplingMethod.INVERSION, grid).model
+
+    def fresh(self):
+        ms = []
+        for i, f in enumerate(self.fams):
+            m = self._margin(f, self.current(i))
+            for tr in self.truncs[i]:
+                m.truncate_levy_measure(tr)
+            ms.append(m)
+        return self._assemble(ms)
+
+
+def zero_mass_gap(g, nu):
+    """does the axis of a probability-step grid have a gap (other than the two next to 0) that carries no jump mass at all
+    (states beyond the support of a truncated measure, or where the mass underflows to 0.0)?"""
+    ax, o = zoo.axis_list(g)[0], _origins(g)[0]
+    with np.errstate(all="ignore"):
+        return bool(any(not nu.integrate(x, y) > 0 for k, (x, y) in enumerate(zip(ax, ax[1:])) if k not in (o - 1, o)))
+
+
+def per_step_probability_oracle(ctx, d, g, nu, h, mps, cls):
+    """promised per-step probability of the probability-step axes: walking outwards from +-h every gap between two
+    states carries the share `minimum_probability_step` of the jump mass outside (-h/2, h/2) for as long as the mass left
+    on that side suffices, i.e. the first k gaps carry it and less than one step's share lies beyond the k-th state"""
+    ax = zoo.axis_list(g)[0]
+    o = _origins(g)[0]
+    tot = nu.integrate(-np.inf, -h / 2) + nu.integrate(h / 2, np.inf)
+    for side, pts in (("right", ax[o + 1:]), ("left", ax[:o][::-1])):
+        mass = (lambda a, b: nu.integrate(a, b)) if side == "right" else (lambda a, b: nu.integrate(b, a))
+        end = np.inf if side == "right" else -np.inf
+        shares = [mass(a, b) / tot for a, b in zip(pts, pts[1:])]
+        k = 0
+        while k < len(shares) and abs(shares[k] - mps) <= 1e-7:
+            k += 1
+        beyond = mass(pts[k], end) / tot
+        if not beyond < mps + 1e-7:
+            ctx.fail("oracle", "c13.step_probability", d, {"side": side, "what": "a gap does not carry the promised per-step probability although the "
+                                                           "mass beyond it suffices", "shares": shares[:12], "full_steps": k, "beyond": beyond,
+                                                           "promised": mps, "states": pts[:12]}, cls=cls)
+            return False
+    return True
+
+
+def grids_agree(sa, sb):
+    """two snapshots describe the same grid (root searches repeated on equal inputs: far inside their tolerance)"""
+    if sa["h"] != sb["h"] or sa["origin"] != sb["origin"] or [len(a) for a in sa["axes"]] != [len(a) for a in sb["axes"]]:
+        return False
+    tol = lambda x, y: abs(x - y) <= 1e-8 * max(abs(x), abs(y), sa["h"])
+    return (all(tol(x, y) for a, b in zip(sa["axes"], sb["axes"]) for x, y in zip(a, b))
+            and all(tol(x, y) for a, b in zip(sa["trunc"], sb["trunc"]) for x, y in zip(a, b)))
+
+
+def _grid_kwargs(gk, a):
+    kw = {}
+    if gk in ("uniform", "geometric"):
+        kw["truncation_probability"] = a["tp"]
+    if gk == "geometric":
+        kw["nb"] = a["nb"]
+    if gk == "credit":
+        kw["level_a"] = a["a"]
+        kw["symmetric_grid"] = a.get("sym", True)
+    if gk == "probstep":
+        kw["minimum_probability_step"] = a["mps"]
+    return kw
+
+
+def judge_build(ctx, d, i, subj, gk, a, last_op):
+    """one construction of the history: the grid built on the live object is judged by the property's oracles against the
+    object's CURRENT measure and compared with the grid built from a freshly constructed model at the current values"""
+    h = a["h"]
+    dim = len(subj.fams)
+    margins = subj.margins()
+    ds = dict(d, step=i, h=h)
+    nd = subj.wrap == "copula"
+    cls = dict(kind=("credit_nd" if nd and gk == "credit" else gk), family=subj.fams[0], history=True, wrap=subj.wrap, after=last_op)
+    if gk == "probstep":       # NOT_PROVED: without jump mass outside (-h/2, h/2) the constructor does not terminate
+        nu = margins[0].levy_triplet.nu
+        with np.errstate(all="ignore"):
+            sides = (nu.integrate(h / 2, np.inf), nu.integrate(-np.inf, -h / 2))
+        if not all(math.isfinite(s) and s > 0 for s in sides):
+            ctx.branches["c13.history:probstep_without_mass_skipped"] += 1
+            return None
+    kw = _grid_kwargs(gk, a)
+    res = []
+    for model in (subj.model, subj.fresh()):
+        try:
+            with np.errstate(all="ignore"):
+                res.append(zoo.make_grid(gk, model, h, **kw)[0])
+        except Exception as e:  # noqa
+            res.append(e)
+    g, gf = res
+    built = not isinstance(g, Exception)
+    ctx.count("c13.history", ds, nontrivial=built and last_op != "start" and min(len(x) for x in g.axes) >= 5,
+              branch=f"{subj.wrap}:{gk}:after_{last_op}" + ("" if built else ":raises"))
+    if isinstance(g, Exception) or isinstance(gf, Exception):
+        if type(g) is not type(gf):
+            ctx.fail("oracle", "c13.history.fresh", ds, {"what": "the constructor behaves differently on the object reached through the history and on "
+                                                         "a freshly constructed model with the same parameter values",
+                                                         "after_history": repr(g) if not built else snapshot(g)["trunc"],
+                                                         "fresh": repr(gf) if isinstance(gf, Exception) else snapshot(gf)["trunc"]}, cls=cls)
+        else:
+            ctx.branches[f"c13.ctor_raises:history:{gk}:{type(g).__name__}"] += 1
+        return None
+    s = snapshot(g)
+    l0, r0 = s["trunc"][0]
+    o0 = s["origin"][0]
+    cls["side_points_le_1"] = bool(min(o0, len(s["axes"][0]) - 1 - o0) <= 1)
+    cls["trunc_inside_h"] = bool(abs(l0) <= h or r0 <= h)
+    if gk == "credit":
+        if nd:
+            cls["sym"] = bool(a.get("sym", True))
+            cls["mirror_exceeds_r"] = bool(cls["sym"] and any(-ai + min(abs(l0 - ai) / 2, abs(ai + h) / 2) >= r0 for ai in a["a"]))
+        else:
+            cls["threshold_inside_h"] = bool(a["a"] >= -h)
+    if gk == "probstep":       # a measure of bounded support (truncated model): states beyond the support, gaps without jump mass
+        cls["zero_mass_gap"] = zero_mass_gap(g, margins[0].levy_triplet.nu)
+    if gk == "uniform" and all(math.isfinite(x) for x in (l0, r0)):
+        with np.errstate(all="ignore"):
+            uniform_rootsearched_tie(ctx, ds, g, subj.model, h, a["tp"], dim, cls)
+    ok = wellformed_oracle(ctx, "c13.constructor.wellformed", ds, g, cls)
+    if ok:
+        tp = a["tp"] if gk in ("uniform", "geometric") else 0.99999 if gk == "credit" else None
+        if tp is not None:
+            with np.errstate(all="ignore"):
+                if nd:
+                    nd_tail_probability_oracle(ctx, ds, g, margins, h, tp, cls)
+                else:
+                    tail_probability_oracle(ctx, ds, g, margins[0], tp, cls)
+        if gk == "probstep":
+            per_step_probability_oracle(ctx, ds, g, margins[0].levy_triplet.nu, h, a["mps"], cls)
+    sf = snapshot(gf)
+    if not grids_agree(s, sf):
+        ctx.fail("oracle", "c13.history.fresh", ds, {"what": "same constructor, same arguments, same parameter values, but the grid built on the object "
+                                                     "reached through the history differs from the grid built on a freshly constructed model (at most "
+                                                     "one of them keeps the promise for these parameter values)",
+                                                     "after_history": {"trunc": s["trunc"], "n": [len(x) for x in s["axes"]], "axis": s["axes"][0][:9]},
+                                                     "fresh": {"trunc": sf["trunc"], "n": [len(x) for x in sf["axes"]], "axis": sf["axes"][0][:9]},
+                                                     "current_parameters": [subj.current(j) for j in range(dim)]}, cls=cls)
+    g0 = copy.deepcopy(g)          # the grid as built (for a later chain / truncation step)
+    if ok and len(s["axes"][0]) <= 150:
+        refine_probe(ctx, ds, g, 1, cls)
+    return g0
+
+
+def history_case(ctx, d):
+    """C + S over constructor histories: several grids built one after the other in this process on ONE model object whose
+    parameters are edited in place between the constructions (`edit`), which is truncated in place (`truncate`) or replaced by
+    the truncated copy an earlier chain construction keeps (`chain`); the same grid arguments on another model object
+    (`other`); the same object with other h / probability (`build` with new arguments)"""
+    subj = _Subject(d["wrap"], d["fams"], d["params"], d.get("copula"))
+    last_op, last_grid, last_args = "start", None, None
+    for i, st in enumerate(d["steps"]):
+        op = st[0]
+        if op == "build":
+            last_args = (st[1], st[2])
+            last_grid = judge_build(ctx, d, i, subj, st[1], st[2], last_op)
+            last_op = "build"
+        elif op == "edit":
+            try:
+                subj.edit(st[1], st[2])
+            except Exception:          # a value the family's descriptors refuse: the history stops here
+                ctx.branches["c13.history:edit_refused"] += 1
+                return
+            last_op = "edit"
+        elif op == "other" and last_args is not None:
+            # the same grid arguments on a different model object (another family / other values), then back
+            other = _Subject(d["wrap"], st[1], st[2], d.get("copula"))
+            judge_build(ctx, d, i, other, last_args[0], last_args[1], "other_object")
+        elif op == "truncate" and last_grid is not None:
+            subj.truncate(list(last_grid.truncations)[:len(subj.fams)] if subj.wrap == "copula" else [last_grid.truncations[0]])
+            last_op = "truncate"
+        elif op == "chain" and last_grid is not None and subj.wrap in ("levy", "exp"):
+            try:
+                with np.errstate(all="ignore"):
+                    subj.through_chain(last_grid)
+            except Exception:          # the chain cannot be built on this grid (C01's business): the history stops here
+                ctx.branches["c13.history:chain_refused"] += 1
+                return
+            last_op = "chain"
+
+
+def _draw_grid_args(rng, wrap, dim, prev=None):
+    """(constructor, arguments); with `prev` the same constructor/arguments with one of h / probability / constructor changed"""
+    kinds = ["uniform", "geometric", "credit"] + (["probstep"] if wrap in ("levy", "exp") else [])
+    if wrap in ("sde", "fwd"):
+        kinds = ["uniform", "geometric"]
+    gk = rng.choice(kinds)
+    a = dict(h=rng.choice([0.1, 0.05, 0.02]), tp=rng.choice([0.99, 0.999, 0.99999]), nb=rng.choice([3, 5, 8]), mps=rng.choice([0.05, 0.1, 0.2]),
+             a=[-x for x in rng.sample([0.25, 0.3, 0.4], dim)] if wrap == "copula" else -rng.choice([0.25, 0.3, 0.5]), sym=rng.random() < 0.5)
+    if prev is not None:
+        what = rng.choice(["h", "tp", "kind"])
+        pk, pa = prev
+        if what == "h":
+            gk, a = pk, dict(pa, h=rng.choice([x for x in (0.1, 0.05, 0.02) if x != pa["h"]]))
+        elif what == "tp":
+            gk, a = pk, dict(pa, tp=rng.choice([x for x in (0.99, 0.999, 0.99999) if x != pa["tp"]]), mps=rng.choice([x for x in (0.05, 0.1, 0.2) if x != pa["mps"]]))
+        else:
+            a = dict(pa, a=a["a"], sym=a["sym"])
+    if gk == "probstep" and a["h"] < 0.05:
+        a["h"] = 0.05
+    return gk, a
+
+
+def _draw_edit(rng, fam):
+    """new values for all primary parameters, or for one / two of them only (any CGMY activity branch: the measure reads y live)"""
+    new = zoo.draw_params(rng, fam)
+    style = rng.choice(["all", "all", "one", "two"])
+    if style != "all":
+        new = {k: new[k] for k in rng.sample(sorted(new), 1 if style == "one" else 2)}
+    return new
+
+
+def draw_history(rng):
+    wrap = rng.choice(HIST_WRAPS)
+    dim = rng.choice([2, 2, 3]) if wrap == "copula" else 1
+    fams = [rng.choice(zoo.FAMILIES) for _ in range(dim)]
+    params = [({} if rng.random() < 0.3 else zoo.draw_params(rng, f)) for f in fams]
+    d = dict(kind="history", wrap=wrap, fams=fams, params=params, steps=[])
+    if wrap == "copula":
+        d["copula"] = rng.choice(zoo.COPULAS)
+    args = _draw_grid_args(rng, wrap, dim)
+    d["steps"].append(["build", args[0], args[1]])
+    for _ in range(rng.randint(2, 4)):
+        op = rng.choice(["edit", "edit", "edit", "other", "truncate", "chain", "none"])
+        if op == "edit":
+            j = rng.randrange(dim)
+            d["steps"].append(["edit", j, _draw_edit(rng, fams[j])])
+        elif op == "other":
+            of = [rng.choice(zoo.FAMILIES) for _ in range(dim)]
+            d["steps"].append(["other", of, [zoo.draw_params(rng, f) for f in of]])
+        elif op == "chain" and wrap not in ("levy", "exp"):
+            d["steps"].append(["truncate"])
+        elif op != "none":
+            d["steps"].append([op])
+        if op == "none" or rng.random() < 0.35:         # other h / probability / constructor on the same object
+            args = _draw_grid_args(rng, wrap, dim, prev=args)
+        d["steps"].append(["build", args[0], args[1]])
+    return d
+
+
+def history_probe(ctx, rng):
+    # in every run: every family x every truncation-based constructor, plain and wrapped: build, edit in place, build again
+    for fam in zoo.FAMILIES:
+        for gk in ("uniform", "geometric", "credit"):
+            wrap = rng.choice(["levy", "exp"] if gk == "credit" else ["levy", "exp", "sde", "fwd"])
+            args = dict(h=rng.choice([0.1, 0.05]), tp=rng.choice([0.999, 0.99999]), nb=rng.choice([3, 5]), mps=0.1, a=-rng.choice([0.25, 0.3]), sym=True)
+            history_case(ctx, dict(kind="history", wrap=wrap, fams=[fam], params=[{}],
+                                   steps=[["build", gk, args], ["edit", 0, zoo.draw_params(rng, fam)], ["build", gk, args],
+                                          ["edit", 0, _draw_edit(rng, fam)], ["build", gk, args]]))
+    for _ in range(2):          # ... and a copula model with one margin edited
+        dim = rng.choice([2, 3])
+        fams = [rng.choice(zoo.FAMILIES) for _ in range(dim)]
+        gk = rng.choice(["uniform", "geometric", "credit"])
+        args = dict(h=0.05, tp=rng.choice([0.999, 0.99999]), nb=rng.choice([3, 5]), mps=0.1, a=[-x for x in rng.sample([0.25, 0.3, 0.4], dim)], sym=rng.random() < 0.5)
+        j = rng.randrange(dim)
+        history_case(ctx, dict(kind="history", wrap="copula", fams=fams, params=[{}] * dim, copula=rng.choice(zoo.COPULAS),
+                               steps=[["build", gk, args], ["edit", j, zoo.draw_params(rng, fams[j])], ["build", gk, args]]))
+    for _ in range(ctx.n(40, 300)):
+        history_case(ctx, draw_history(rng))
+
+
 def run(ctx):
     rng = ctx.rng
     # np.linspace and the uniform constructor with explicit bounds against M; the theorems' witnesses on the real code
@@ -606,6 +947,8 @@ def run(ctx):
             cls["side_points_le_1"] = bool(min(o0, len(g.axes[0]) - 1 - o0) <= 1)
             cls["trunc_inside_h"] = bool(abs(l0) <= h or r0 <= h)
             ctx.count("c13.constructor", d, nontrivial=len(g.axes[0]) >= 5, branch=kind)
+            if kind == "probstep":
+                cls["zero_mass_gap"] = zero_mass_gap(g, model.levy_triplet.nu)
             if kind == "uniform":
                 uniform_rootsearched_tie(ctx, d, g, model, h, kw["truncation_probability"], 1, cls)
             if not wellformed_oracle(ctx, "c13.constructor.wellformed", d, g, cls):
@@ -614,6 +957,8 @@ def run(ctx):
                 tail_probability_oracle(ctx, d, g, model, kw["truncation_probability"], cls)
             if kind in ("geometric", "geometric_bounds"):
                 geometric_closed_form(ctx, d, g, h, kw["nb"], cls)
+            if kind == "probstep":
+                per_step_probability_oracle(ctx, d, g, model.levy_triplet.nu, h, kw["minimum_probability_step"], cls)
             if kind == "fixed":
                 out = ctx.lean(f"fixed {w(h)} {kw['nb_of_points']} {dim}").split(" ")
                 m_axes, m_o = rdll(out[0]), int(out[1])
@@ -692,11 +1037,16 @@ def run(ctx):
         g = zoo.CTMCGrid(h=h, origin_coordinate=n_left, axes=axes)
         refine_probe(ctx, d, g, rng.randint(1, kmax + 1), dict(kind="synthetic"))
 
+    # constructor histories on live model objects (last: the streams of the probes above stay as they were)
+    history_probe(ctx, rng)
+
 
 def replay(ctx, rec):
     """re-run the probe of a replay / corpus record"""
     d = rec["input"]
     cls = rec.get("cls", {})
+    if d.get("kind") == "history":
+        return history_case(ctx, {k: v for k, v in d.items() if k not in ("step", "h", "k", "l", "r")})
     if d.get("kind") == "linspace":
         return linspace_case(ctx, d)
     if d.get("kind") == "uniform_explicit" and "obj" not in d:
